@@ -66,6 +66,9 @@ PHASES = {
     ],
     "C09": [
         {"pkg": "e1", "test": "TestC09Broadcasts", "phase": "C09/broadcast-completeness"},
+        # concurrent local writes vs merge on one retained topic: the node must keep what its broadcasts convey
+        {"pkg": "e4", "test": "TestC20Schedules", "phase": "C09/schedules",
+         "env": {"VERIF_E4_PROPERTY": "C09", "VERIF_E4_FILTER": "distributed: topics"}},
     ],
     "C16": [
         {"pkg": "e1", "test": "TestC16Store", "phase": "C16/credential-stores"},
